@@ -137,3 +137,24 @@ func TestSelectDeadlock(t *testing.T) {
 		t.Fatal("no deadlock reported")
 	}
 }
+
+// a task parked for ever (a goroutine the code under test leaves blocked) while
+// the last running task finishes: the run must end as a deadlock, not hang with
+// nobody holding the token
+func TestLeakedBlockedTaskEndsTheRun(t *testing.T) {
+	for seed := uint64(1); seed <= 100; seed++ {
+		res := Run(walk(seed), func() {
+			c := make(chan int)
+			Go(func() { Yield(1); Send(c, 1) }) // nobody ever receives
+			Go(func() {
+				for i := 0; i < 5; i++ {
+					Yield(2)
+				}
+			})
+			Yield(3)
+		})
+		if !res.Deadlock {
+			t.Fatalf("seed %d: no deadlock reported", seed)
+		}
+	}
+}
